@@ -88,7 +88,10 @@ def run_sx(contract, seed=0):
 
     def fun():
         with sx.patched(*c.patches()):
-            return c.body(inputs)
+            out = c.body(inputs)
+        # the contract clauses are evaluated inside the exploration: comparisons they make
+        # (abs, max, case splits of the specification) fork like those of the code
+        return out, list(c.ensures(inputs, out))
 
     obs = []
     try:
@@ -116,7 +119,7 @@ def run_sx(contract, seed=0):
         _agg(agg, order, f"{c.label}:no-exception", PROVED, "sx-run", {}, 0.0)
         if c.safety:
             bad = [(k, sx.SETREL.get(s, s) if not isinstance(s, str) else s) for k, n_, s, ok in pa.safety if not ok]
-            if pa.tokens and _has_token(pa.out):
+            if pa.tokens and _has_token(pa.out[0]):
                 bad.append(("token", "; ".join(pa.tokens[:3])))
             if bad:
                 _agg(agg, order, f"{c.label}:safety", REFUTED if pa.witness is not None else UNDECIDED, "sign",
@@ -124,12 +127,7 @@ def run_sx(contract, seed=0):
             else:
                 _agg(agg, order, f"{c.label}:safety", PROVED, "sign", {"checked": len(pa.safety)}, 0.0)
         sx.activate(ctx, pa)
-        try:
-            claims = list(c.ensures(inputs, pa.out))
-        except Exception as e:
-            _agg(agg, order, f"{c.label}:ensures-evaluable", REFUTED, "sx-run",
-                 {"exception": repr(e), "traceback": traceback.format_exc(limit=8), "env": pa.witness}, 0.0)
-            continue
+        claims = pa.out[1]
         for name, claim in claims:
             if claim.smooth_only and pa.boundary:
                 continue
